@@ -117,6 +117,15 @@ static void net_eval(const cs_vna *v, int variant, double f, int sys,
 void cs_make_vna(cs_vna *v, vnacal_type_t type, int rows, int cols, int nf,
 	int variant)
 {
+    double fv[CS_MAXF];
+    for (int k = 0; k < nf; ++k)
+	fv[k] = F0 + FSTEP * k;
+    cs_make_vna_f(v, type, rows, cols, nf, fv, variant);
+}
+
+void cs_make_vna_f(cs_vna *v, vnacal_type_t type, int rows, int cols, int nf,
+	const double *fvec, int variant)
+{
     memset(v, 0, sizeof(*v));
     v->type = type;
     v->rows = rows;
@@ -126,7 +135,7 @@ void cs_make_vna(cs_vna *v, vnacal_type_t type, int rows, int cols, int nf,
     v->nf = nf;
     v->variant = variant;
     for (int k = 0; k < nf; ++k)
-	v->f[k] = F0 + FSTEP * k;
+	v->f[k] = fvec[k];
     for (int p = 0; p < v->P; ++p)
 	v->gamma_unused[p] = 0.3 - 0.2 * I * (p + 1) + 0.1 * p;
     for (int k = 0; k < nf; ++k)
@@ -383,9 +392,10 @@ static void present(const cs_scenario *sc, int nf, int nr, const int *rsel,
 		pr->bval[i][k] = sub[i];
 	    continue;
 	}
+	cs_c scl = sc->ab_scale != 0.0 ? sc->ab_scale : 1.0;
 	if (col) {
 	    for (int j = 0; j < nc; ++j) {
-		cs_c a = a_entry(sc->a_variant, nc, j, j, k);
+		cs_c a = scl * a_entry(sc->a_variant, nc, j, j, k);
 		pr->aval[j][k] = a;
 		for (int i = 0; i < nr; ++i)
 		    pr->bval[i * nc + j][k] = sub[i * nc + j] * a;
@@ -394,7 +404,7 @@ static void present(const cs_scenario *sc, int nf, int nr, const int *rsel,
 	    cs_c A[NS];
 	    for (int i = 0; i < nc; ++i)
 		for (int j = 0; j < nc; ++j) {
-		    A[i * nc + j] = a_entry(sc->a_variant, nc, i, j, k);
+		    A[i * nc + j] = scl * a_entry(sc->a_variant, nc, i, j, k);
 		    pr->aval[i * nc + j][k] = A[i * nc + j];
 		}
 	    for (int i = 0; i < nr; ++i)
@@ -413,22 +423,43 @@ static int int_cmp(const void *a, const void *b)
     return *(const int *)a - *(const int *)b;
 }
 
+int cs_std_measure(const cs_scenario *sc, int k, cs_c Mf[][NS])
+{
+    const cs_vna *v = &sc->vna;
+    const cs_std *st = &sc->std[k];
+    cs_c S[NS];
+
+    for (int f = 0; f < v->nf; ++f) {
+	cs_std_S(sc, st, f, S);
+	if (cs_measure(v, f, S, Mf[f]) != 0)
+	    return -1;
+	if (sc->noise != 0.0) {
+	    /* keyed by the measurement's identity, frequency value and
+	       full-matrix cell: invariant under reordering, re-entry,
+	       abbreviation and splitting by frequency */
+	    uint64_t fkey = (uint64_t)(v->f[f] / 1.0e6);
+	    for (int r = 0; r < v->rows; ++r)
+		for (int c = 0; c < v->cols; ++c)
+		    Mf[f][r * v->cols + c] += sc->noise *
+			vf_cunit(9900 + (uint64_t)st->id,
+				fkey * 64 + (uint64_t)(r * 8 + c));
+	}
+    }
+    return 0;
+}
+
 int cs_add_std(vnacal_new_t *vnp, const cs_scenario *sc, int k)
 {
     const cs_vna *v = &sc->vna;
     const cs_std *st = &sc->std[k];
     cs_c Mf[CS_MAXF][NS];
-    cs_c S[NS];
     int rsel[CS_MAXP], csel[CS_MAXP], nr, nc;
     int sorted[CS_MAXP];
     static present_t pr;	/* large; single-threaded */
 
-    for (int f = 0; f < v->nf; ++f) {
-	cs_std_S(sc, st, f, S);
-	if (cs_measure(v, f, S, Mf[f]) != 0) {
-	    errno = ERANGE;
-	    return -2;
-	}
+    if (cs_std_measure(sc, k, Mf) != 0) {
+	errno = ERANGE;
+	return -2;
     }
     memcpy(sorted, st->port, sizeof(int) * (size_t)st->np);
     qsort(sorted, (size_t)st->np, sizeof(int), int_cmp);
@@ -544,23 +575,20 @@ void cs_dut(const cs_vna *v, int k, int findex, cs_c *S)
     }
 }
 
-double cs_apply_error(vnacal_t *vcp, int ci, const cs_scenario *sc,
-	cs_c Sdut[][CS_MAXP * CS_MAXP], int *rc)
+int cs_apply(vnacal_t *vcp, int ci, const cs_scenario *sc,
+	cs_c Sdut[][CS_MAXP * CS_MAXP], cs_c Sout[][CS_MAXP * CS_MAXP])
 {
     const cs_vna *v = &sc->vna;
     const int P = v->P;
     cs_c Mf[CS_MAXF][NS];
     static present_t pr;
     int sel[CS_MAXP];
-    double worst = 0.0;
-    cs_vna sq;			/* view with P x P measurement layout */
+    int rc;
 
     for (int f = 0; f < v->nf; ++f) {
 	cs_c M[NS];
-	if (cs_measure(v, f, Sdut[f], M) != 0) {
-	    *rc = -2;
-	    return HUGE_VAL;
-	}
+	if (cs_measure(v, f, Sdut[f], M) != 0)
+	    return -2;
 	if (v->rows == v->cols) {
 	    memcpy(Mf[f], M, sizeof(cs_c) * (size_t)(P * P));
 	} else {
@@ -568,10 +596,8 @@ double cs_apply_error(vnacal_t *vcp, int ci, const cs_scenario *sc,
 	    cs_c Sr[NS], Mr[NS];
 	    Sr[0] = Sdut[f][3]; Sr[1] = Sdut[f][2];
 	    Sr[2] = Sdut[f][1]; Sr[3] = Sdut[f][0];
-	    if (cs_measure(v, f, Sr, Mr) != 0) {
-		*rc = -2;
-		return HUGE_VAL;
-	    }
+	    if (cs_measure(v, f, Sr, Mr) != 0)
+		return -2;
 	    if (v->rows == 1) {		/* 1x2: M = [m11 m12] */
 		Mf[f][0] = M[0];  Mf[f][1] = M[1];
 		Mf[f][2] = Mr[1]; Mf[f][3] = Mr[0];
@@ -584,44 +610,56 @@ double cs_apply_error(vnacal_t *vcp, int ci, const cs_scenario *sc,
     for (int i = 0; i < P; ++i)
 	sel[i] = i;
     /* present() indexes Mf with v->cols as the stride: use a square view */
-    cs_scenario view = *sc;
+    static cs_scenario view;
+    view = *sc;
     view.vna.rows = view.vna.cols = P;
-    (void)sq;
     present(&view, v->nf, P, sel, P, sel, Mf, &pr);
 
     vnadata_t *vdp = vnadata_alloc(NULL, NULL);
-    if (vdp == NULL) {
-	*rc = -3;
-	return HUGE_VAL;
-    }
+    if (vdp == NULL)
+	return -3;
     if (sc->ab)
-	*rc = vnacal_apply(vcp, ci, v->f, v->nf, pr.aptr, pr.a_rows,
+	rc = vnacal_apply(vcp, ci, v->f, v->nf, pr.aptr, pr.a_rows,
 		pr.a_cols, pr.bptr, pr.b_rows, pr.b_cols, vdp);
     else
-	*rc = vnacal_apply_m(vcp, ci, v->f, v->nf, pr.bptr, pr.b_rows,
+	rc = vnacal_apply_m(vcp, ci, v->f, v->nf, pr.bptr, pr.b_rows,
 		pr.b_cols, vdp);
-    if (*rc == 0) {
+    if (rc == 0) {
 	if (vnadata_get_rows(vdp) != P || vnadata_get_columns(vdp) != P ||
 		vnadata_get_frequencies(vdp) != v->nf ||
 		vnadata_get_type(vdp) != VPT_S) {
-	    worst = HUGE_VAL;
+	    rc = -4;
 	} else {
 	    for (int f = 0; f < v->nf; ++f) {
 		if (vnadata_get_frequency(vdp, f) != v->f[f])
-		    worst = HUGE_VAL;
+		    rc = -4;
 		for (int i = 0; i < P; ++i)
-		    for (int j = 0; j < P; ++j) {
-			double e = cabs(vnadata_get_cell(vdp, f, i, j) -
-				Sdut[f][i * P + j]);
-			if (!(e <= worst))
-			    worst = e;
-		    }
+		    for (int j = 0; j < P; ++j)
+			Sout[f][i * P + j] = vnadata_get_cell(vdp, f, i, j);
 	    }
 	}
-    } else {
-	worst = HUGE_VAL;
     }
     vnadata_free(vdp);
+    return rc;
+}
+
+double cs_apply_error(vnacal_t *vcp, int ci, const cs_scenario *sc,
+	cs_c Sdut[][CS_MAXP * CS_MAXP], int *rc)
+{
+    const cs_vna *v = &sc->vna;
+    const int P = v->P;
+    cs_c Sout[CS_MAXF][NS];
+    double worst = 0.0;
+
+    *rc = cs_apply(vcp, ci, sc, Sdut, Sout);
+    if (*rc != 0)
+	return HUGE_VAL;
+    for (int f = 0; f < v->nf; ++f)
+	for (int i = 0; i < P * P; ++i) {
+	    double e = cabs(Sout[f][i] - Sdut[f][i]);
+	    if (!(e <= worst))
+		worst = e;
+	}
     return worst;
 }
 
@@ -907,6 +945,7 @@ static void push_std(cs_scenario *sc, int kind, int np, const int *ports,
     st = &sc->std[sc->nstd++];
     memset(st, 0, sizeof(*st));
     st->np = np;
+    st->id = sc->nstd;
     for (int i = 0; i < np; ++i) {
 	int src = pv ? np - 1 - i : i;
 	st->port[i] = ports[src];
